@@ -95,7 +95,7 @@ Definition streamInOut (i o : arg) (e : env) (cli_on : bool) : prep :=
     end
   end.
 
-(* io.go:127 (*streamInOutFinalizer).finalize; Close is assumed to succeed.
+(* io.go:127 streamInOutFinalizer.finalize; Close is assumed to succeed.
    Returns the effects and whether the returned error is nil. *)
 Definition finalize (s : src) (k : snk) (e : env) (op_ok : bool) : list ev * bool :=
   let close := match k with SnkStdout => [] | _ => [EvCloseOut] end in
